@@ -9,8 +9,8 @@
 //!  (3) data sets and files: every truncation and every single-byte mutation (to 00, 01, FF) of a small
 //!      object (nested sequence, odd-length value, native / encapsulated pixel data) encoded in Implicit VR
 //!      LE, Explicit VR LE, Explicit VR BE and as a complete file, through InMemDicomObject::
-//!      read_dataset_with_ts (which drives the DataSetReader), dicom_object::from_reader and the
-//!      LazyDataSetReader.
+//!      read_dataset_with_ts (which drives the DataSetReader), the DataSetReader with flexible VR detection,
+//!      dicom_object::from_reader and the LazyDataSetReader.
 //! Any panic is reported with the input that caused it.
 use dicom_core::value::deserialize::{parse_date_partial, parse_datetime_partial, parse_time_partial};
 use dicom_core::value::{DataSetSequence, PixelFragmentSequence, Value};
@@ -188,6 +188,13 @@ fn main() {
                     let (ts, name) = &syntaxes[*kind];
                     if catch_unwind(AssertUnwindSafe(|| { let _ = InMemDicomObject::read_dataset_with_ts(m, ts); })).is_err() {
                         failures.lock().unwrap().push(format!("InMemDicomObject::read_dataset_with_ts ({}) panicked ({}): {}", name, how, hex(m)));
+                    }
+                    if *kind < 2 && catch_unwind(AssertUnwindSafe(|| {
+                        // flexible VR detection (little endian syntaxes)
+                        let options = dicom_parser::dataset::read::DataSetReaderOptions::default().flexible_decoding(true);
+                        if let Ok(r) = dicom_parser::dataset::read::DataSetReader::new_with_ts_options(m, ts, options) { let mut n = 0; for tok in r { n += 1; if tok.is_err() || n > 10_000 { break; } } }
+                    })).is_err() {
+                        failures.lock().unwrap().push(format!("DataSetReader with flexible VR detection ({}) panicked ({}): {}", name, how, hex(m)));
                     }
                     if catch_unwind(AssertUnwindSafe(|| {
                         if let Ok(mut r) = LazyDataSetReader::new_with_ts(Cursor::new(m), ts) {
